@@ -1,0 +1,134 @@
+//go:build verif
+
+// Contracts for package mpb (comment-only; read by /verif/bin/gowp).
+// Syntax: DESIGN.md section 2.3. Keys are package-relative go/ssa function names.
+package mpb
+
+// ---------------------------------------------------------------------------------------
+// struct invariants (DESIGN.md 2.6): established by every allocating function, fields
+// written only during construction, assumed for every non-nil pointer that enters a function
+
+//@ typeinv Bar props C02 C09 self.cancel != nil && self.frameCh != nil && self.operateState != nil && self.bsOk != nil && self.container != nil && self.ctx != nil
+
+//@ func newBar
+//@   props    C02 C09
+//@   requires container != nil && bs != nil
+//@   ensures  result != nil && fresh(result)
+//@   ensures  result.priority == bs.priority && result.container == container
+
+// ---------------------------------------------------------------------------------------
+// bar state: completion (C09, C11)
+
+//@ func (bState).completed
+//@   props    C09 C11
+//@   pure
+//@   ensures  trig: result ==> s.triggerComplete && s.current == s.total
+//@   ensures  done: !s.aborted && s.triggerComplete && s.current == s.total ==> result
+//@   ensures  exclusive: s.aborted ==> !result
+
+//@ functype Bar.cancel
+//@   modifies nothing
+
+//@ func (*bState).triggerCompletion
+//@   props    C09 C04
+//@   requires s != nil && b != nil
+//@   modifies s.triggerComplete, spawned()
+//@   ensures  trig: s.triggerComplete
+//@   ensures  auto: s.autoRefresh ==> spawned("(*Bar).tryEarlyRefresh") == old(spawned("(*Bar).tryEarlyRefresh")) + 1
+//@                  && called("Bar.cancel") == old(called("Bar.cancel"))
+//@   ensures  manual: !s.autoRefresh ==> called("Bar.cancel") == old(called("Bar.cancel")) + 1
+//@                  && spawned() == old(spawned())
+
+// Step rules of C09, transcribed from the property statement. `wraps`: `s.current += n` is
+// Go's silent wrap-around; the rules are stated with wrap64, nothing is assumed about overflow.
+
+//@ func (*Bar).IncrInt64$1
+//@   props    C09 C11 C10
+//@   wraps
+//@   requires s != nil && b != nil
+//@   modifies s.current, s.triggerComplete, spawned()
+//@   ensures  capped: old(s.triggerComplete) && wrap64(old(s.current) + n) >= old(s.total)
+//@              ==> s.current == old(s.total) && s.triggerComplete
+//@   ensures  plain: !(old(s.triggerComplete) && wrap64(old(s.current) + n) >= old(s.total))
+//@              ==> s.current == wrap64(old(s.current) + n) && s.triggerComplete == old(s.triggerComplete)
+//@   ensures  S1: old(s.completed()) && n >= 0 ==> s.completed()
+//@   ensures  S2: old(s.aborted) ==> s.aborted && !s.completed()
+
+//@ func (*Bar).SetCurrent$1
+//@   props    C09 C11 C10
+//@   requires s != nil && b != nil
+//@   modifies s.current, s.triggerComplete, spawned()
+//@   ensures  capped: old(s.triggerComplete) && current >= old(s.total)
+//@              ==> s.current == old(s.total) && s.triggerComplete
+//@   ensures  plain: !(old(s.triggerComplete) && current >= old(s.total))
+//@              ==> s.current == current && s.triggerComplete == old(s.triggerComplete)
+//@   ensures  S1: old(s.completed()) && current >= old(s.current) ==> s.completed()
+//@   ensures  S2: old(s.aborted) ==> s.aborted && !s.completed()
+
+//@ func (*Bar).SetTotal$1
+//@   props    C09 C11 C10
+//@   requires s != nil && b != nil
+//@   modifies s.total, s.current, s.triggerComplete, spawned()
+//@   ensures  ignored: old(s.triggerComplete) ==> s.total == old(s.total) && s.current == old(s.current) && s.triggerComplete
+//@   ensures  adopt: !old(s.triggerComplete) && total < 0 ==> s.total == old(s.current)
+//@   ensures  set: !old(s.triggerComplete) && total >= 0 ==> s.total == total
+//@   ensures  complete: !old(s.triggerComplete) && complete ==> s.current == s.total && s.triggerComplete
+//@   ensures  keep: !old(s.triggerComplete) && !complete ==> s.current == old(s.current) && !s.triggerComplete
+//@   ensures  S1: old(s.completed()) ==> s.completed()
+//@   ensures  S2: old(s.aborted) ==> s.aborted && !s.completed()
+
+//@ func (*Bar).EnableTriggerComplete$1
+//@   props    C09 C11 C10
+//@   requires s != nil && b != nil
+//@   modifies s.current, s.triggerComplete, spawned()
+//@   ensures  ignored: old(s.triggerComplete) ==> s.current == old(s.current)
+//@   ensures  enabled: s.triggerComplete && s.total == old(s.total)
+//@   ensures  capped: !old(s.triggerComplete) && old(s.current) >= old(s.total) ==> s.current == s.total
+//@   ensures  plain: !old(s.triggerComplete) && old(s.current) < old(s.total) ==> s.current == old(s.current)
+//@   ensures  S1: old(s.completed()) ==> s.completed()
+//@   ensures  S2: old(s.aborted) ==> s.aborted && !s.completed()
+
+//@ func (*Bar).SetRefill$1
+//@   props    C09 C11 C10
+//@   requires s != nil
+//@   modifies s.refill
+//@   ensures  capped: s.refill == min(amount, s.current)
+//@   ensures  R6: s.refill <= s.current
+
+//@ func (*Bar).Abort$1
+//@   props    C09 C11 C10
+//@   requires s != nil && b != nil
+//@   modifies s.aborted, s.rmOnComplete, s.triggerComplete, spawned()
+//@   ensures  noop: old(s.aborted) || old(s.completed())
+//@              ==> s.aborted == old(s.aborted) && s.rmOnComplete == old(s.rmOnComplete) && s.triggerComplete == old(s.triggerComplete)
+//@   ensures  abort: !old(s.aborted) && !old(s.completed()) ==> s.aborted && s.rmOnComplete == drop
+//@   ensures  S1: old(s.completed()) ==> s.completed()
+//@   ensures  S2: old(s.aborted) ==> s.aborted && !s.completed()
+//@   ensures  exclusive: !(s.aborted && s.completed())
+
+// getters: exactly one value is sent, it is the field (or the observation completed()), and
+// nothing is modified
+
+//@ func (*Bar).Current$1
+//@   props    C09 C10
+//@   requires s != nil && !closed(result)
+//@   modifies sent(result)
+//@   ensures  sent(result) == old(sent(result)) + 1 && lastSent(result) == s.current
+
+//@ func (*Bar).ID$1
+//@   props    C09 C10
+//@   requires s != nil && !closed(result)
+//@   modifies sent(result)
+//@   ensures  sent(result) == old(sent(result)) + 1 && lastSent(result) == s.id
+
+//@ func (*Bar).Aborted$1
+//@   props    C09 C10 C11
+//@   requires s != nil && !closed(result)
+//@   modifies sent(result)
+//@   ensures  sent(result) == old(sent(result)) + 1 && lastSent(result) == s.aborted
+
+//@ func (*Bar).Completed$1
+//@   props    C09 C10 C11
+//@   requires s != nil && !closed(result)
+//@   modifies sent(result)
+//@   ensures  sent(result) == old(sent(result)) + 1 && lastSent(result) == s.completed()
